@@ -21,6 +21,12 @@ OPS = {
     'clear': ['l_clear', 'd_clear'],
     'reverse': ['l_reverse'],
     'popitem': ['d_popitem'],
+    'insert': ['l_insert'],
+    'delIdx': ['l_delitem', 'l_pop'],
+    'remove': ['l_remove'],
+    'setSlice': ['l_setitem'],
+    'delSlice': ['l_delitem'],
+    'imul': ['l_imul'],
 }
 
 
